@@ -4,18 +4,29 @@ import PegVerif.Proofs.RefineDefs
 -/
 namespace PegVerif
 
-variable {P : Program} {cfg : Cfg} {env : CEnv} {G : Grammar} {inp : List Sym}
+variable [MInv] {P : Program} {cfg : Cfg} {env : CEnv} {G : Grammar} {inp : List Sym}
 
-theorem Succ.refl_nil {lbl s f} (hlen : s.ti ≤ s.tree.length) (hm : s.memo = []) :
+omit [MInv] in
+theorem updTok_e_ge (mt t : Token) : mt.e ≤ (updTok mt t).e := by
+  unfold updTok; split <;> omega
+
+/-- `add` leaves the memo table alone and can only move `maxToken` forward. -/
+theorem doAdd_memo_ok (cfg : Cfg) (rule : String) (b : Nat) (s : St) (h : MInv.ok s.memo s.maxTok.e) :
+    MInv.ok (doAdd cfg rule b s).memo (doAdd cfg rule b s).maxTok.e := by
+  have hm : (doAdd cfg rule b s).memo = s.memo := by simp [doAdd]
+  rw [hm, doAdd_maxTok]
+  exact MInv.mono (updTok_e_ge _ _) h
+
+theorem Succ.refl_nil {lbl s f} (hlen : s.ti ≤ s.tree.length) (hm : MInv.ok s.memo s.maxTok.e) :
     Succ lbl s f s f s.pos [] [] :=
   ⟨rfl, by simp, by simp, hlen, fun _ _ => rfl, by simp, hm⟩
 
 /-- Only the position changed. -/
-theorem Succ.move {lbl s f} (p' : Nat) (hlen : s.ti ≤ s.tree.length) (hm : s.memo = []) :
+theorem Succ.move {lbl s f} (p' : Nat) (hlen : s.ti ≤ s.tree.length) (hm : MInv.ok s.memo s.maxTok.e) :
     Succ lbl s f { s with pos := p' } f p' [] [] :=
   ⟨rfl, by simp, by simp, hlen, fun _ _ => rfl, by simp, hm⟩
 
-theorem Failed.refl {lbl s f} (hlen : s.ti ≤ s.tree.length) (hm : s.memo = []) :
+theorem Failed.refl {lbl s f} (hlen : s.ti ≤ s.tree.length) (hm : MInv.ok s.memo s.maxTok.e) :
     Failed lbl s f s f [] :=
   ⟨rfl, hlen, fun _ _ => rfl, by simp, hm⟩
 
@@ -50,6 +61,7 @@ theorem good_chr_fail {p c} (hcE : c ≠ END) (h : inp[p]? ≠ some c) :
     exact Steps.jump h1 (by rw [← hp.pos] at hbx; simp [stepLocal, hbx, hne]) hl
   · exact Steps.jump h1 (by rw [← hp.pos] at hbe; simp [stepLocal, hbe, Ne.symm hcE]) hl
 
+omit [MInv] in
 theorem inp_lt_of_some {p : Nat} {c : Sym} (h : inp[p]? = some c) : p < inp.length := by
   rcases Nat.lt_or_ge p inp.length with h' | h'
   · exact h'
